@@ -2,19 +2,20 @@
 From Coq Require Import ZArith QArith Qround List Bool.
 From Flocq Require Import IEEE754.BinarySingleNaN.
 From KV Require Import Base.IEEE Base.Outcome Base.Num C04.Model.
-From KV Require Import C04.ProofsTransport C04.ProofsInterp C04.ProofsSound C04.ProofsSeq C04.ProofsResample.
+From KV Require Import C04.ProofsTransport C04.ProofsSeek C04.ProofsInterp C04.ProofsSound C04.ProofsSeq C04.ProofsResample.
 Import ListNotations.
 Local Open Scope Z_scope.
 
 (** For ANY start position, ANY requested loop regions (empty and inverted ones included: they
     are ignored), every history of increments, decrements, seeks and [set_loop_region]s runs to
     the end: no panic, no hang.  [B] is any bound on the length, the start and the loop ends;
-    each loop of the transport ends within [fuel] iterations for any [fuel] above [B] and the
-    seek targets. *)
+    each loop of the transport (the wraps of increment / decrement) ends within [fuel] iterations
+    for any [fuel] above [B]; a seek target is ANY [usize] ([wf_top]: [0 <= p <= u64_max]) — the
+    seek has no loop since the repair of F40. *)
 Theorem transport_safe :
   forall (fuel : nat) (N B start : Z) (lr : option (Z * Z)) (reverse : bool) (ops : list top),
     0 <= start -> start < B -> N <= B -> B < u64_max -> B < Z.of_nat fuel -> req_loop B lr ->
-    Forall (wf_top B fuel) ops ->
+    Forall (wf_top B) ops ->
     exists t', trun fuel N (transport_new start lr reverse N) ops = Ok t' /\
                0 <= t_pos t' /\ (t_playing t' = true -> t_pos t' < B) /\ wf_loop B (t_loop t').
 Proof. exact transport_safe_all. Qed.
@@ -24,10 +25,10 @@ Proof. exact transport_safe_all. Qed.
 Theorem transport_safe_guarded :
   forall (fuel : nat) (N start : Z) (lr : option (Z * Z)) (reverse : bool) (ops : list top),
     0 <= start -> start < N -> N < u64_max -> N < Z.of_nat fuel -> req_loop N lr ->
-    Forall (wf_top N fuel) ops ->
+    Forall (wf_top N) ops ->
     exists t', trun fuel N (transport_new start lr reverse N) ops = Ok t' /\
                0 <= t_pos t' /\ (t_playing t' = true -> t_pos t' < N) /\ wf_loop N (t_loop t').
-Proof. exact ProofsTransport.transport_safe_guarded. Qed.
+Proof. exact ProofsSeek.transport_safe_guarded. Qed.
 
 (** The former failures, now positive: an empty or inverted region is ignored ... *)
 Theorem empty_or_inverted_region_ignored :
@@ -50,6 +51,110 @@ Theorem reverse_start_beyond_end_plays_nothing :
     0 <= start -> N <= start ->
     transport_new start lr true N = {| t_pos := 0; t_loop := filter_region lr; t_playing := false |}.
 Proof. exact transport_new_reverse_beyond_end. Qed.
+
+(** * [Transport::seek_to] since the repairs of F40 (constant time, total) and F24 ([playing] is set
+    from the landing position).
+
+    For every well-formed transport (position a [usize], a playing position below the bound, loop
+    region [0 <= ls < le <= B]) and EVERY [usize] target the seek returns — it has no loop, hence
+    no fuel — keeps the invariant and the region, and lands where the wrap says: a forward seek
+    (target after the current position) below the loop end, a backward one at or after the loop
+    start, a target inside the region on itself, always on a position congruent to the target
+    modulo the loop length; without a region exactly on the target.  The transport plays
+    afterwards exactly if it has landed inside the sound — whatever it did before (F24). *)
+Theorem seek_to_total :
+  forall (N B : Z), N <= B -> B < u64_max ->
+  forall (t : transport) (i : Z), wf_transport B t -> 0 <= i <= u64_max ->
+    exists t', transport_seek_to t i N = Ok t' /\ wf_transport B t' /\ t_loop t' = t_loop t /\
+      match t_loop t with
+      | Some (ls, le) =>
+          (t_pos t < i -> t_pos t' < le) /\ (i <= t_pos t -> ls <= t_pos t') /\
+          (ls <= i < le -> t_pos t' = i) /\ (t_pos t' - i) mod (le - ls) = 0
+      | None => t_pos t' = i
+      end /\
+      t_playing t' = (t_pos t' <? N).
+Proof. exact seek_total. Qed.
+
+(** It computes what the loops it replaced computed: for ANY [usize] position, target and region
+    (well-formed or not), whenever the old seek returned — with whatever fuel — the seek with the
+    constant-time wrap ([transport_seek_to_wrap_only]: the repair of F40 alone) returns exactly the
+    same transport; the seek as it is now returns the same position and region, with [playing] set
+    from the position — hence exactly the same transport whenever the transport was playing. *)
+Theorem seek_to_wrap_agrees_with_loop :
+  forall (fuel : nat) (t : transport) (p N : Z) (t' : transport),
+    usize_transport t -> 0 <= p ->
+    transport_seek_to_old fuel t p N = Ok t' ->
+    transport_seek_to_wrap_only t p N = Ok t' /\
+    transport_seek_to t p N = Ok {| t_pos := t_pos t'; t_loop := t_loop t'; t_playing := t_pos t' <? N |} /\
+    (t_playing t = true -> transport_seek_to t p N = Ok t').
+Proof. exact seek_to_agrees. Qed.
+
+(** F40, REGRESSION.  The old loop `while position >= loop_end { position -= loop_end - loop_start }`
+    runs [(p - le) / (le - ls) + 1] times before it can return: with no more fuel than that the
+    old seek is [Hang], with more it returns [ls + (p - ls) mod (le - ls)] — which the repaired seek
+    returns at once. *)
+Theorem seek_loop_old_cost :
+  forall (fuel : nat) (t : transport) (p N ls le : Z),
+    t_loop t = Some (ls, le) -> 0 <= ls -> ls < le -> le <= u64_max -> 0 <= t_pos t ->
+    t_pos t < p -> le <= p -> p <= u64_max ->
+    (Z.of_nat fuel <= (p - le) / (le - ls) + 1 -> transport_seek_to_old fuel t p N = Hang) /\
+    ((p - le) / (le - ls) + 1 < Z.of_nat fuel ->
+       transport_seek_to_old fuel t p N =
+         Ok {| t_pos := ls + (p - ls) mod (le - ls); t_loop := t_loop t;
+               t_playing := if ls + (p - ls) mod (le - ls) >=? N then false else t_playing t |}) /\
+    transport_seek_to t p N =
+      Ok {| t_pos := ls + (p - ls) mod (le - ls); t_loop := t_loop t;
+            t_playing := ls + (p - ls) mod (le - ls) <? N |}.
+Proof. exact seek_old_cost. Qed.
+
+(** the witness: `seek_to(1e300)` saturates to [usize::MAX]; on a loop of 4 frames the old code
+    needed 2^62 - 1 subtractions (no fuel below 2^62 lets it return); the repaired seek lands on
+    frame 3 = (2^64 - 1) mod 4 *)
+Theorem seek_loop_old_cost_witness :
+  forall (fuel : nat) (N : Z),
+    Z.of_nat fuel < 2 ^ 62 ->
+    transport_seek_to_old fuel {| t_pos := 3; t_loop := Some (0, 4); t_playing := true |} u64_max N = Hang /\
+    transport_seek_to {| t_pos := 3; t_loop := Some (0, 4); t_playing := true |} u64_max N =
+      Ok {| t_pos := 3; t_loop := Some (0, 4); t_playing := 3 <? N |}.
+Proof. exact seek_old_cost_witness. Qed.
+
+(** F24 (repaired).  A seek to a target inside a sound without a loop region makes the transport
+    play from there — also a transport that has already reached the end (it runs three frames
+    ahead of what is heard, so the last frames are still playing then) ... *)
+Theorem seek_inside_sound_plays_again :
+  forall (t : transport) (i N : Z), t_loop t = None -> 0 <= i < N ->
+    transport_seek_to t i N = Ok {| t_pos := i; t_loop := None; t_playing := true |}.
+Proof. exact seek_inside_plays. Qed.
+
+(** ... and the static sound plays on from the target: whatever its transport did (playing or at
+    the end), as long as the sound has not gone Stopped, [seek_to_index i] with [i] inside the
+    sound leaves the transport playing at [i] and has pushed source frame [slice.start + i] into
+    the window (the invariant holds, so every theorem about [update_position] applies from there). *)
+Theorem seek_inside_sound_resumes_playback :
+  forall (T : Type) (A : Type) (azero : A) (fuel : nat) (B : Z) (s : ssound T A) (i : Z),
+    SInv A fuel B s -> t_loop (s_tr s) = None -> s_stopped s = false -> 0 <= i < NS A s ->
+    seek_to_index A azero s i =
+      Ok (set_rs A (set_tr A s {| t_pos := i; t_loop := None; t_playing := true |})
+            (push_frame azero (s_rs s) (Some (src_get (s_src s) (soff (s_slice s) + i))) i)) /\
+    SInv A fuel B (set_rs A (set_tr A s {| t_pos := i; t_loop := None; t_playing := true |})
+            (push_frame azero (s_rs s) (Some (src_get (s_src s) (soff (s_slice s) + i))) i)).
+Proof. exact (@seek_inside_resumes). Qed.
+
+(** F24, REGRESSION: before the repair the seek moved a stopped transport without starting it (so
+    nothing more was pushed: silence, then Stopped) ... *)
+Theorem seek_during_last_frames_old_ignored :
+  forall (fuel : nat) (p i N : Z), 0 <= i < N ->
+    transport_seek_to_old fuel {| t_pos := p; t_loop := None; t_playing := false |} i N =
+      Ok {| t_pos := i; t_loop := None; t_playing := false |}.
+Proof. exact seek_inside_old_stays_stopped. Qed.
+
+(** ... the witness: 5 frames played forward to the end, then `seek_to(0.0)` *)
+Theorem seek_during_last_frames_witness :
+  trun_old 8 5 (transport_new 0 None false 5) (repeat TInc 5 ++ [TSeek 0]) =
+    Ok {| t_pos := 0; t_loop := None; t_playing := false |} /\
+  trun 8 5 (transport_new 0 None false 5) (repeat TInc 5 ++ [TSeek 0]) =
+    Ok {| t_pos := 0; t_loop := None; t_playing := true |}.
+Proof. exact seek_at_end_witness. Qed.
 
 (** The only access to the source frames: at most one read per position update, at
     [slice.start + position], inside the (clipped) slice and inside the audio — for ANY slice. *)
@@ -77,12 +182,12 @@ Theorem update_position_exact :
       SInv A fuel B (finish A (set_tr A (set_rs A s (push_frame azero (s_rs s) (pushed A azero s) (t_pos (s_tr s)))) t')).
 Proof. exact (@update_position_spec). Qed.
 
-(** Every history of position updates, seeks (to any index below the iteration bound) and loop
-    region changes (any region) keeps the invariant: no panic, no hang, reads inside the slice. *)
+(** Every history of position updates, seeks (to ANY [usize] index) and loop region changes (any
+    region) keeps the invariant: no panic, no hang, reads inside the slice. *)
 Theorem sound_safe :
   forall (T : Type) (NT : Num T) (A : Type) (azero : A) (fuel : nat) (B : Z)
          (ops : list sop) (s : ssound T A),
-    SInv A fuel B s -> Forall (wf_sop fuel B) ops ->
+    SInv A fuel B s -> Forall (wf_sop B) ops ->
     exists s', srun A azero fuel s ops = Ok s' /\ SInv A fuel B s'.
 Proof. exact (@srun_safe). Qed.
 
